@@ -113,6 +113,34 @@ CrossSymmetric ==
                 LET q == QueryPairs[n]
                 IN  CrossingSign(q[1], q[2], L[k], Nxt(L, k)) = CrossingSign(L[k], Nxt(L, k), q[2], q[1])
 
+\* ---- cells of levels 0 and 1: their corners are lattice points ------------------------------
+\* The cube faces in S2's frames; the (u,v) corners of the face cells are -1/1, of their four
+\* children -1/0/1, so every corner is a point of {-1,0,1}^3 and the exact predicates apply.
+FaceUV(f, u, v) ==
+    CASE f = 0 -> <<1, u, v>> [] f = 1 -> <<-u, 1, v>> [] f = 2 -> <<-u, -v, 1>>
+      [] f = 3 -> <<-1, -v, -u>> [] f = 4 -> <<v, -1, -u>> [] OTHER -> <<v, u, -1>>
+\* cell <<f, lvl, i, j>>: corners counter-clockwise in (u,v)
+CellCorners(c) ==
+    LET u0 == IF c[2] = 0 THEN -1 ELSE c[3] - 1   u1 == IF c[2] = 0 THEN 1 ELSE c[3]
+        v0 == IF c[2] = 0 THEN -1 ELSE c[4] - 1   v1 == IF c[2] = 0 THEN 1 ELSE c[4]
+    IN  <<FaceUV(c[1], u0, v0), FaceUV(c[1], u1, v0), FaceUV(c[1], u1, v1), FaceUV(c[1], u0, v1)>>
+SmallCells == {<<f, 0, 0, 0>> : f \in 0..5} \cup {<<f, 1, i, j>> : f \in 0..5, i \in 0..1, j \in 0..1}
+\* some edge of the loop certainly crosses a side of the cell (all four determinants non-zero):
+\* the boundary cuts through the cell: ContainsCell must be false and IntersectsCell true
+CellCut(c, l) ==
+    LET cs == CellCorners(c)
+    IN  \E k \in 1..Len(l), s \in 1..4 :
+            LET a == cs[s] b == cs[(s % 4) + 1]
+            IN  /\ CrossingRobust(l[k], Nxt(l, k), a, b)
+                /\ CrossingSign(l[k], Nxt(l, k), a, b) = "CROSS"
+\* a corner certainly inside the loop: IntersectsCell must be true; certainly outside: ContainsCell false
+CellCornerIs(c, l, x) == \E s \in 1..4 : InLoop(CellCorners(c)[s], l) = x
+CellSeq == SetToSortSeq(SmallCells, LAMBDA a, b : a[1] * 100 + a[2] * 10 + a[3] * 2 + a[4] < b[1] * 100 + b[2] * 10 + b[3] * 2 + b[4])
+\* a cell that is cut has corners on both sides or ... at least: the demands never contradict
+CellDemandsConsistent ==
+    Full /\ Op = "c06lattice" =>
+        \A c \in SmallCells : \A k \in 1..4 : CellCorners(c)[k] \in Pts /\ ~Parallel(CellCorners(c)[k], CellCorners(c)[(k % 4) + 1])
+
 Emit ==
     IF Full
     THEN LET ps == ProbeSeq
@@ -121,6 +149,11 @@ Emit ==
                                       pts |-> ps,
                                       want |-> [k \in 1..Len(ps) |-> InLoop(ps[k], L)],
                                       qs |-> qs,
-                                      cross |-> [n \in 1..Len(qs) |-> CrossWith(qs[n], L)]])>>)
+                                      cross |-> [n \in 1..Len(qs) |-> CrossWith(qs[n], L)],
+                                      cells |-> IF Op # "c06lattice" THEN <<>>
+                                                ELSE [n \in 1..Len(CellSeq) |->
+                                                        [c |-> CellSeq[n], cut |-> CellCut(CellSeq[n], L),
+                                                         cin |-> CellCornerIs(CellSeq[n], L, "T"),
+                                                         cout |-> CellCornerIs(CellSeq[n], L, "F")]]])>>)
     ELSE TRUE
 =============================================================================
